@@ -1344,7 +1344,7 @@ impl SchedX {
         }
         vio::enable();
         vio::set_page_write_delay(2000);
-        vio::arm(vio::Fault { file: "ht".into(), tag: "write".into(), ordinal: 0, persistent: false, page_at: vio::PageFaultAt::Submission, abort: false });
+        vio::arm(vio::Fault { file: "ht".into(), tag: "write".into(), ordinal: 0, persistent: false, page_at: vio::PageFaultAt::Submission, abort: false, cqe: None });
         let r = commit_kv(&n, &batch);
         vio::mark("old-handle-dropped");
         // a second thread races for the directory while this one is inside the drop
